@@ -29,7 +29,7 @@ from ecdsa import (  # type: ignore
     numbertheory,
     ellipticcurve,
 )
-from ecdsa.util import sigencode_string, sigdecode_string, sigencode_der  # type: ignore
+from ecdsa.util import sigencode_string, sigdecode_string, sigencode_der, sigdecode_der  # type: ignore
 from sympy.ntheory import sqrt_mod  # type: ignore
 
 from bitcoinutils.constants import (
@@ -394,38 +394,17 @@ class PrivateKey:
         #   1-byte   -- length of signature's S value
         #   variable -- S value
 
-        der_prefix = signature[0]
-        length_total = signature[1]
-        der_type_int = signature[2]
-        length_r = signature[3]
-        R = signature[4 : 4 + length_r]
-        length_s = signature[5 + length_r]
-        S = signature[5 + length_r + 1 :]
-        S_as_bigint = b_to_i(S)
+        r, s = sigdecode_der(signature, Secp256k1Params._order)
 
         # update S -- Low S standardness rule
 
-        # if length is 33 bytes then it contains a sign and thus is high S
-        if length_s == 33:
-            new_S_as_bigint = Secp256k1Params._order - S_as_bigint
-            # convert bigint to bytes
-            # new_S = h_to_b(i_to_h64(new_S_as_bigint))
-            new_S = i_to_b32(new_S_as_bigint)
-            # new value should be 32 bytes
-            assert len(new_S) == 0x20
-            # reduce appropriate lengths
-            length_s -= 1
-            length_total -= 1
-        else:
-            new_S = S
+        # S is high when it is above half the curve order, whatever its byte
+        # length; (order - S) is then the equivalent low value
+        if s > Secp256k1Params._order // 2:
+            s = Secp256k1Params._order - s
 
-        # reconstruct signature
-        signature = (
-            struct.pack("BBBB", der_prefix, length_total, der_type_int, length_r)
-            + R
-            + struct.pack("BB", der_type_int, length_s)
-            + new_S
-        )
+        # reconstruct signature -- strict DER, minimal integer encodings
+        signature = sigencode_der(r, s, Secp256k1Params._order)
 
         # add sighash in the signature -- as one byte!
         signature += struct.pack("B", sighash)
